@@ -102,10 +102,12 @@ def end_to_end(shard, nshards, payload):
     strings = payload["strings"]
     vd = vc.worker_vdrive()
     t = vc.Tally()
-    for i, (s, sink) in enumerate(strings):
+    for i, item in enumerate(strings):
         if i % nshards != shard:
             continue
-        lit = qml_str(s)
+        s, sink = item[0], item[1]
+        form = item[2] if len(item) > 2 else None      # the colour string written as an expression that denotes it
+        lit = form if form is not None else qml_str(s)
         if sink == "color":
             body = f"QColorDialog {{ currentColor: {lit} }}"
         elif sink == "brush":
@@ -115,13 +117,15 @@ def end_to_end(shard, nshards, payload):
         src = "import qmluic.QtWidgets\n" + body + "\n"
         r = vd.translate(src, modes=("generate",))
         case = {"kind": "e2e", "string": s, "sink": sink, "source": src}
+        if form is not None:
+            case["form"] = form
         t.inc("e2e_documents")
         if r.get("crashed") or r.get("timeout") or r["modes"]["generate"].get("status") == "panic":
             t.lost.append({"source": src, "result": {k: r.get(k) for k in ("crashed", "timeout")}})
             continue
         g = r["modes"]["generate"]
-        exp = expected(s, table)
-        t.distinct.add((sink, "accept" if exp else "reject", len(s), s[:1] == "#"))
+        exp = expected(s, table) if s is not None else None
+        t.distinct.add((sink, "accept" if exp else "reject", len(s or ""), (s or "")[:1] == "#") if form is None else (sink, form))
         if exp is None:
             t.inc("e2e_expected_reject")
             errs = [d for d in g["diagnostics"] if d["kind"] == "error"]
@@ -129,13 +133,16 @@ def end_to_end(shard, nshards, payload):
                 t.violation(f"e2e:{sink}:accepted-a-string-that-is-not-a-colour", case)
                 continue
             lo = src.index(lit)
-            if not any(lo <= d["s"] and d["e"] <= lo + len(lit.encode()) + (len(src[:lo].encode()) - lo)
+            if form is None and not any(lo <= d["s"] and d["e"] <= lo + len(lit.encode()) + (len(src[:lo].encode()) - lo)
                        or (src.encode().find(lit.encode()) <= d["s"] and d["e"] <= src.encode().find(lit.encode()) + len(lit.encode()))
                        for d in errs):
                 t.inc("e2e_rejections_reported_elsewhere_than_on_the_string")     # the statement does not say where: observed, not judged
             continue
         t.inc("e2e_expected_accept")
         if not vc.accepted(g):
+            if form is not None:
+                t.inc("e2e_forms_not_folded")        # whether an expression form is a constant is C03/C05's matter
+                continue
             t.violation(f"e2e:{sink}:rejected-a-valid-colour", dict(case, diagnostics=g["diagnostics"]))
             continue
         try:
@@ -170,6 +177,16 @@ def end_to_end(shard, nshards, payload):
     return t
 
 
+COLOUR_FORMS = [
+    ("blue", '{ let c = "red"; c = "blue"; return c }'), ("nosuch", '{ let c = "red"; c = "nosuch"; return c }'),
+    ("red", '{ let c = "nosuch"; c = "red"; return c }'), ("#0000ff", '{ let c = "#ff0000"; c = "#00ff00"; c = "#0000ff"; return c }'),
+    ("red", '{ let c = "blue"; let d = "red"; c = d; return c }'), ("blue", '{ let c = "blue"; let d = c; c = "red"; return d }'),
+    ("#fff", '"#" + "fff"'), ("red", '"re" + "d"'), ("#12345", '"#12" + "345"'), ("red", '{ return "red" }'),
+    ("red", '{ if (true) { return "red" } return "blue" }'), ("blue", '{ if (false) { return "red" } return "blue" }'),
+    ("red", 'true ? "red" : "blue"'), ("blue", 'false ? "red" : "blue"'), ("red", '("red")'), ("#80ff0000", '"#80" + "ff" + "0000"'),
+    (None, 'qsTr("red")'), (None, 'qsTr("Transparent")'), (None, 'qsTr("#fff")'), (None, 'qsTr("blue") + ""'), (None, '"" + qsTr("black")'),
+    (None, '1'), (None, 'true'), (None, '["red"]'), (None, 'null'),
+]
 CLI_COLOURS = ["#ffffff", "#000", "#80123abc", "red", "lightgoldenrodyellow", "#12345"]     # the last is not a colour
 
 
@@ -255,6 +272,10 @@ def main(tier, t0):
               "red ", " red", "re d", "#wtf", "rgb(1,2,3)", "0", "#-123", "light blue", "reDé",
               "#12é", "transparent ", "#ffff ", "##fff", "KhaKi", "rebeccapurple"]:
         strings += [(s, "color"), (s, "brush")]
+    # the same strings written as expressions that denote them (or as translatable strings, which denote no colour)
+    for sink in ("color", "brush", "palette"):
+        for s_, form in COLOUR_FORMS:
+            strings.append((s_, sink, form))
     if tier == "thorough":
         for k in sorted(table):
             strings += [(k.upper(), "brush"), (k.capitalize(), "palette")]
@@ -314,7 +335,7 @@ def replay(path):
         print("replay: holds now")
         return 0
     if case.get("kind") == "e2e":
-        t = end_to_end(0, 1, {"table": table, "strings": [(case["string"], case["sink"])]})
+        t = end_to_end(0, 1, {"table": table, "strings": [(case["string"], case["sink"]) + ((case["form"],) if "form" in case else ())]})
         vc._worker_vd and vc._worker_vd.close()
         if t.violations:
             print(f"VIOLATION property=C19 replay={path}")
